@@ -26,6 +26,18 @@ P.update({
  "C08": dict(live=True, cat="proof", technique="Coq proof of the any-of / all-of scans (eq_spec, neq_spec, complementarity, refutation of the pinned any-of ==) + differential correspondence at every position",
    text="a != b <-> some word differs, a == b <-> all words equal, complementary (proved for any length); bool(expr) <-> some non-zero word. Correspondence on 13 comparison shapes (plain, expression on either side, self, shared-handle copy) for pairs equal / differing / equal-exactly-at / differing-exactly-at every position, poly and poly_p, 3 back ends. Found and fixed: a == b was true when ANY residue matched.",
    note=TB + "GCC vector-extension == on __m128i/__m256i compares 64-bit lanes; that is covered by correspondence on the SIMD builds, not by the model."),
+ "C04": dict(live=True, cat="proof", technique="Coq proof of the CRT lift (lifting integers, Shoup-style big-integer reduction with one conditional subtraction, uniqueness via Gauss) + differential correspondence with GMP-backed poly2mpz/mpz2poly",
+   text="poly2mpz_coef (executable model of GMP::GMP() and poly2mpz: extended-Euclid inverse, lifting integers, accumulate, reduceQ) returns the integer in [0,Q) congruent to every residue, unique for pairwise coprime moduli; mpz2poly stores floor residues for integers of any sign/size; both compositions are proved (v mod Q, identity). Correspondence: residue patterns (all p-1, one-hot, zero, random) and integers (0, Q-1, Q, Q+1, -1, -Q, +-2^700 ...) for 1..15 moduli (quick) / up to 291 and 1000 moduli (thorough) against the model (<= 12 moduli) and an independent zarith CRT; ring add/sub/negacyclic product against big-integer arithmetic in Z_Q[X]/(X^n+1).",
+   note=TB + "The theorems carry the hypothesis that every modular inverse was found (all_some (modinvs ps)); it is discharged at run time by the model (None otherwise) and by an Example; GMP's integer semantics are modelled, not verified."),
+ "C05": dict(live=True, cat="proof", technique="Coq proofs that modelled vector kernels/loops equal the scalar ones (addmod lanes, layer nth-characterisation, width-independent assignment) + exhaustive-by-construction cross-build differential (serial/NFL_OPTIMIZED/SSE/AVX2) on one workload",
+   text="The same case files (functors in every lane, transforms, products, circuits, 22 expression shapes, 13 comparison shapes, CRT, serialised evaluation-form data written by one build and consumed by the others) run through the three/four builds and must agree word for word; each family is additionally tied to the Coq model by C01/C02/C03/C07/C08.",
+   note=TB + "Only the addmod vector kernel and the layer/assignment structure are proved equal to scalar code; mulmod_shoup/muladd_shoup vector kernels and the unrolled NTT loops are covered by the differential (real intrinsics on this CPU)."),
+ "C15": dict(live=True, cat="proof", technique="Coq proof of the setter loop (iterator rewind, reduce/verbatim, zero fill, throw) for all lengths + differential correspondence over every length 0..n*nm+2",
+   text="set_list is the literal loop of poly::set / set_mpz; the three documented cases (k<=n, k=n*nm, otherwise throw with the polynomial untouched) and the reduction rule are proved for all n, nm, lists. Correspondence: every length 0..n*nm+2 for small configurations x {iterator range, pointer range, std::array, constructor} x reduce on/off x poly/poly_p, values 0,p-1,p,2^w-1, big integers of both signs up to 2^700, scalar set/assign; stored words, thrown or not, content after a throw.",
+   note=TB),
+ "C16": dict(live=True, cat="proof", technique="Coq proof of raw (de)serialisation incl. truncated streams (overlay model of istream::read) + differential correspondence at every truncation offset under ASan, cereal archives compared byte for byte",
+   text="deserialize (serialize ws ++ rest) = (ws, rest, ok), exact length, little-endian limbs, every truncation fails, and after a short read the object holds restored-prefix ++ old-suffix (so nothing outside is written). Correspondence: raw writer/reader, back-to-back streams, truncation at every byte offset with guard objects on both sides under AddressSanitizer, cereal binary / portable binary / JSON archives written and re-read, text form; poly and poly_p.",
+   note=TB + "Partial: cereal and the text printer are compared with driver-side models, nothing is proved about them (parse-back theorem for the text form not yet proved)."),
 })
 ALL = ["C%02d" % i for i in range(1, 20)]
 checks, na = [], []
